@@ -17,6 +17,7 @@ const preludeText = `(set-option :produce-models true)
 (declare-fun refroot (Int) Int)
 (declare-fun elemref (Int Int) Int)
 (assert (= (refroot 0) 0))
+(assert (forall ((b Int) (i Int)) (! (and (= (reftag (elemref b i)) (- 1)) (= (refowner (elemref b i)) b) (= (refindex (elemref b i)) i) (= (refroot (elemref b i)) (refroot b)) (=> (not (= b 0)) (> (elemref b i) 0))) :pattern ((elemref b i)))))
 (define-fun tdiv ((x Int) (y Int)) Int (ite (> y 0) (ite (>= x 0) (div x y) (- (div (- x) y))) (ite (>= x 0) (- (div x (- y))) (div (- x) (- y)))))
 (define-fun tmod ((x Int) (y Int)) Int (- x (* y (tdiv x y))))
 (declare-fun iand (Int Int) Int)
@@ -64,9 +65,7 @@ func (p *Prog) VerifyFunc(fn *ssa.Function, fc *FuncContract, cf *ContractFile, 
 		res.Trusted = fc.Trusted
 		return res
 	}
-	vc := &FuncVC{prog: p, fn: fn, fc: fc, cf: cf, enc: &Enc{Mode: mode}, sc: NewScript(), entry: map[string]Term{},
-		entrySorts: map[string]Sort{}, counters: map[string]int{}, typeIDs: map[string]int{}, strLits: map[string]Term{},
-		funcIDs: map[string]int{}, subFuncs: map[string]bool{}, prov: map[string]provInfo{}, globalRefs: map[string]Term{}, tier: tier}
+	vc := newFuncVC(p, fn, fc, cf, mode, tier)
 	defer func() {
 		if r := recover(); r != nil {
 			switch e := r.(type) {
@@ -111,6 +110,7 @@ func (p *Prog) VerifyFunc(fn *ssa.Function, fc *FuncContract, cf *ContractFile, 
 			fr.vals[fv] = v
 		}
 	}
+	vc.assumeLemmas(st)
 	fr.entry = st.clone()
 	reach := tTrue
 	// requires
@@ -226,6 +226,95 @@ func (p *Prog) VerifyFunc(fn *ssa.Function, fc *FuncContract, cf *ContractFile, 
 	}
 	res.Obls = vc.obls
 	return res
+}
+
+func newFuncVC(p *Prog, fn *ssa.Function, fc *FuncContract, cf *ContractFile, mode Mode, tier string) *FuncVC {
+	return &FuncVC{prog: p, fn: fn, fc: fc, cf: cf, enc: &Enc{Mode: mode}, sc: NewScript(), entry: map[string]Term{},
+		entrySorts: map[string]Sort{}, counters: map[string]int{}, typeIDs: map[string]int{}, strLits: map[string]Term{},
+		funcIDs: map[string]int{}, subFuncs: map[string]bool{}, prov: map[string]provInfo{}, globalRefs: map[string]Term{}, tier: tier}
+}
+
+// VerifyLemma checks a lemma block: its ensures clauses must hold in every
+// state (with `expand`, quantifiers over constant ranges are unrolled and table
+// reads fold to literals, i.e. the lemma is proved by ground evaluation).
+func (p *Prog) VerifyLemma(fc *FuncContract, cf *ContractFile, pkgName string, tier string) (res *FuncResult) {
+	name := pkgName + "." + strings.TrimPrefix(fc.Key, "lemma:")
+	res = &FuncResult{Name: "lemma " + name, Key: fc.Key}
+	mode := ModeBV
+	ms := fc.Mode
+	if ms == "" {
+		ms = cf.Default.Mode
+	}
+	if ms == "int" {
+		mode = ModeInt
+	}
+	res.Mode = map[Mode]string{ModeBV: "bv", ModeInt: "int"}[mode]
+	vc := newFuncVC(p, nil, fc, cf, mode, tier)
+	vc.lemmaName = "lemma " + name
+	defer func() {
+		if r := recover(); r != nil {
+			switch e := r.(type) {
+			case unsupportedErr:
+				res.Unsupported = e.msg
+				res.Obls = nil
+			case specErr:
+				res.ContractErr = e.msg
+				res.Obls = nil
+			default:
+				panic(r)
+			}
+		}
+	}()
+	st := &State{Locals: map[*ssa.Alloc]Val{}, Heap: map[string]Term{}}
+	st.Alloc = vc.sc.DeclP("alloc0", SInt)
+	vc.sc.AssumeP(app(SBool, ">=", st.Alloc, intLit64(1)), "")
+	vc.entryState = st
+	env := &SpecEnv{vc: vc, cf: cf, pkg: cf.PkgTypes, vars: map[string]Val{}, oldVars: map[string]Val{}, cur: st, old: st, allocOld: st.Alloc, where: "lemma " + name, expand: fc.Expand}
+	for _, prm := range fc.Params {
+		pt := env.lookupType(prm.Type)
+		if pt == nil {
+			panic(specErr{"lemma " + name + ": unknown parameter type"})
+		}
+		env.vars[prm.Name] = vc.freshVal("lemma_"+prm.Name, pt, st)
+	}
+	for _, c := range fc.Requires {
+		vc.sc.Assume(env.Bool(c.Expr), "lemma hypothesis")
+	}
+	for j, c := range fc.Ensures {
+		parts := env.BoolParts(c.Expr)
+		for k, g := range parts {
+			ob := &Obligation{Name: fmt.Sprintf("%s#%d.%d", vc.lemmaName, j+1, k+1), Kind: "lemma", Func: vc.lemmaName, Pos: vc.sc.Pos(), Goal: g, Script: vc.sc,
+				Src: fmt.Sprintf("%s:%d", shortPath(cf.Path), c.Line), Desc: c.Src, VC: vc}
+			if g.IsTrue() {
+				ob.Status, ob.Solver = "unsat", "ground-evaluation"
+				ob.Pre = true
+			}
+			vc.obls = append(vc.obls, ob)
+		}
+	}
+	res.Obls = vc.obls
+	return res
+}
+
+// assumeLemmas adds the lemmas named by `uses` as assumptions (their proofs
+// are separate obligations of the lemma blocks).
+func (vc *FuncVC) assumeLemmas(st *State) {
+	if vc.fc == nil || vc.cf == nil {
+		return
+	}
+	for _, name := range vc.fc.Uses {
+		lf := vc.cf.Funcs["lemma:"+name]
+		if lf == nil {
+			panic(specErr{"uses " + name + ": no such lemma"})
+		}
+		if len(lf.Params) > 0 {
+			panic(specErr{"uses " + name + ": parameterised lemmas cannot be assumed wholesale"})
+		}
+		env := &SpecEnv{vc: vc, cf: vc.cf, pkg: vc.cf.PkgTypes, vars: map[string]Val{}, oldVars: map[string]Val{}, cur: st, old: st, allocOld: st.Alloc, where: "lemma " + name}
+		for _, c := range lf.Ensures {
+			vc.sc.AssumeP(env.Bool(c.Expr), "lemma "+name+": "+c.Src)
+		}
+	}
 }
 
 func (vc *FuncVC) collectModel(name string, v Val) {
